@@ -741,6 +741,9 @@ class Path(parent.Geometry):
         )
 
         cache = {}
+        # drop our own cached values if they are for outdated data:
+        # only a verified cache may be handed to the copy as current
+        self._cache.verify()
         # try to copy the cache over to the new object
         try:
             # save dict keys before doing slow iteration
